@@ -16,12 +16,12 @@ CHECKS = {
  'C02': dict(
     technique="runtime monitor: reference-model oracle - library expressions evaluated in a tensor model whose amplitudes are explicit determinant-space RSPT coefficients, compared with the RSPT numbers (energies, amplitudes, residuals + sensitivity probe, expectation values)",
     category='exploration', design='4/C02',
-    text="mp and re partitioning, first-order singles on/off, energies through order 3 (4 thorough), amplitude classes singles..quadruples, 1- and 2-particle expectation values, fresh and cache-warmed GroundState objects; every request compared on all index assignments of model spaces up to (4,4). Residual checks are guarded by a sensitivity probe (perturbed amplitudes must give a non-zero residual).",
+    text="mp and re partitioning, first-order singles on/off (MP reference with free, non-zero first-order singles injected into the explicit RSPT recursion), energies through order 3 (4 thorough), amplitude classes singles..quadruples, 1- and 2-particle expectation values, fresh and cache-warmed GroundState objects; every request compared on all index assignments of model spaces up to (4,4). Residual checks are guarded by a sensitivity probe (perturbed amplitudes must give a non-zero residual).",
     note="Trusted: vlib/fock.py RSPT (Gaussian elimination over F_p), TM evaluator, real model Hamiltonians (tNcc = tN). RE order-2 quadruples residual is out of bounds (> 25 min derivation)."),
  'C03': dict(
     technique="runtime monitor: reference-model oracle - explicit intermediate-state power series in determinant space (Gram-Schmidt + S^-1/2 series) vs. the library's secular-matrix blocks, precursor blocks, matrix-vector products and block-order tables",
     category='exploration', design='4/C03',
-    text="All five ADC variants, first two excitation classes, diagonal and coupling blocks through ADC(2) in the quick tier and ADC(3) in the thorough tier, subtract_gs on/off, MVPs with the documented normalisation, compared on every bra/ket orbital assignment; truncation tables compared with the ADC(n) definition for n <= 6.",
+    text="All five ADC variants, first two excitation classes, diagonal and coupling blocks through ADC(2) in the quick tier and ADC(3) in the thorough tier, subtract_gs on/off (also both values on one SecularMatrix instance), first_order_singles=True cases, MVPs with the documented normalisation, compared on every bra/ket orbital assignment; truncation tables compared with the ADC(n) definition for n <= 6.",
     note="Trusted: vlib/isr.py, vlib/fock.py, TM; MP partitioning only (as the property states); third-class blocks and orders >= 4 out of bounds."),
  'C04': dict(
     technique="runtime monitor: value oracle with random amplitude tensors over F_p (Schwartz-Zippel) on overlap_isr / overlap_precursor results; antisymmetrised delta computed from orbital tuples",
@@ -31,7 +31,7 @@ CHECKS = {
  'C05': dict(
     technique="runtime monitor: reference-model oracle - explicit <I|D-<D>|J> and <I|D|Psi0> series between explicitly built intermediate states contracted with random X, Y, d, vs. expec_block_contribution / trans_moment_space / their ADC(n) sums",
     category='exploration', design='4/C05',
-    text="pp/ip/ea (dip/dea at low order) blocks through ADC(2), 1-particle operators (2-particle thorough), default operator strings per variant, subtract_gs on/off, ADC(n) sums against the block-order definition.",
+    text="pp/ip/ea (dip/dea at low order) blocks through ADC(2), 1-particle operators (2-particle thorough), default operator strings per variant, subtract_gs on/off (both orders on one instance), first_order_singles=True cases, ADC(n) sums (1- and 2-particle) against the block-order definition.",
     note="Trusted: vlib/isr.py apply_operator, the reading of the documented normalisation (validated on all blocks)."),
  'C07': dict(
     technique="runtime monitor: value oracle (F_p tensor model) + alpha-equivalence completeness oracle on direct simplify calls; icontract post-condition on adcgen.simplify.simplify for the internal calls of real derivations",
@@ -46,7 +46,7 @@ CHECKS = {
  'C20': dict(
     technique="runtime monitor: value oracle with U a Cayley-orthogonal block matrix over F_p on every generated simplify_unitary call",
     category='exploration', design='4/C20',
-    text="600 generated products per quick run (2-6 U incl. powers, structured pairs sharing an index that is contracted-only / also on a third object / a target, denominators, 1-2 terms, explicit or Einstein targets fixed by the input, evaluate_deltas on/off).",
+    text="600 generated products per quick run (2-6 U incl. powers, structured pairs sharing an index that is contracted-only / also on a third object / a target, denominators, 1-2 terms, explicit or Einstein targets fixed by the input, evaluate_deltas on/off, closed rings, earlier calls with other target sets in the same process).",
     note="Trusted: Cayley transform + modular inverse (orthogonality asserted at run time), TM evaluator. Which indices are targets is fixed by the input (explicitly or by the summation convention on the input term)."),
  'C13': dict(
     technique="runtime monitor: value oracle (F_p tensor model with orbital energies, symbolic denominator D := 1/(sum e_upper - sum e_lower), diagonal / block-diagonal Fock models) on every fraction-algebra operation of generated terms",
@@ -61,17 +61,17 @@ CHECKS = {
  'C08': dict(
     technique="runtime monitor: IR reference model (simultaneous substitution / sequential transpositions rebuilt through the constructors), lowest-name and fresh-generic-name oracles with TM value check, and an offline checker over the event log of hooked Indices.get_indices / get_generic_indices requests",
     category='exploration', design='4/C08',
-    text="~320 index maps (chains, cycles, chains into cycles, many-to-one, identities, mixed spaces/spins), 160 permutation sequences, 260 renaming cases (targets colliding with low names, spins, numbered names) and 6 registry histories of 50-500 interleaved requests (~1900 logged events) per quick run.",
+    text="~320 index maps (chains, cycles, chains into cycles, many-to-one, identities, mixed spaces/spins), 160 permutation sequences, ~290 renaming cases (targets colliding with low names, spins, numbered names, chains needing numbered name generations, declared twice-index targets, Term objects held across set_target_idx), the helpers get_lowest_avail_indices / minimize_tensor_indices against their documented rules and 6 registry histories of 50-500 interleaved requests (~1900 logged events) per quick run.",
     note="Trusted: IR substitution code (20 lines), name_sequence re-implementation of the documented name order."),
  'C10': dict(
     technique="runtime monitor: pointwise value oracle (axis transposition of the term's F_p value array) on every reported symmetry; reconstruction oracle for exploit_perm_sym parts; key recomputation + part-sum oracle for sort.by_* / filter_tensor; LazyTermMap entry oracle",
     category='exploration', design='4/C10',
-    text="~390 Term/Obj.symmetry calls (all / only_contracted / only_target, denominators, bra-ket symmetries, exponents), ~115 exploit_perm_sym and ~30 LazyTermMap cases on (anti)symmetrised expressions, 110 multi-term expressions through all five sort.by_* functions and filter_tensor (880 calls) per quick run, plus the ADC(2) ph/ph matrix and MP2 density of the repository's tests.",
+    text="~390 Term/Obj.symmetry calls (all / only_contracted / only_target, denominators, bra-ket symmetries, exponents), ~130 exploit_perm_sym (incl. partial orbits with explicit denominators over targets) and ~40 LazyTermMap cases (incl. cyclic orbits of three targets) on (anti)symmetrised expressions, 110 multi-term expressions through all five sort.by_* functions and filter_tensor (880 calls) per quick run, plus the ADC(2) ph/ph matrix and MP2 density of the repository's tests.",
     note="Trusted: TM evaluator, numpy swapaxes composition. Terms for the unrestricted symmetry mode keep <= 4 index occurrences per (space, spin): the library's enumeration is factorial."),
  'C16': dict(
     technique="runtime monitor: offline checker over the returned contraction scheme (exactly-once use of operands and inner results, index conservation, limits, recomputed scaling) + step-by-step execution on F_p tensor-model arrays",
     category='exploration', design='4/C16',
-    text="~400 generated terms per quick run (1-6 objects, exponents, traces, outer products, disconnected groups, hyper-contractions, deltas, symbols, shuffled target orders, spin-labelled targets, all limit settings incl. infeasible ones); optimize_contractions and unoptimized_contraction audited and executed.",
+    text="~400 generated terms per quick run (1-6 objects, exponents, traces, outer products, disconnected groups, hyper-contractions, deltas, symbols, shuffled target orders, spin-labelled targets, all limit settings incl. infeasible ones, earlier calls with another target order in the same process); optimize_contractions and unoptimized_contraction audited and executed.",
     note="Trusted: TM evaluator; operands matched to the term's objects by index tuple. Only the computational part of 'maximal scaling never worse than the single simultaneous contraction' is checked (an inner result may legitimately need more memory than the final result)."),
  'C17': dict(
     technique="runtime monitor / translation validation: every emitted program (einsum and libtensor syntax) is parsed and executed by an independent interpreter (vlib/codeinterp.py) on F_p tensor-model blocks and compared with the TM value of the source expression",
@@ -101,12 +101,12 @@ CHECKS = {
  'C11': dict(
     technique="runtime monitor: definitional tensor model (every intermediate tensor carries the F_p value of its registered definition) as value oracle across expand_intermediates / factor_intermediates / reduce_expr, incl. expand(factor(.)) = identity",
     category='exploration', design='4/C11',
-    text="~220 generated expressions per quick run over 15 registered intermediates (20 thorough): (intermediate tensor x free tensor) combinations, fully/once expanded, perturbed expansions (prefactor changed -> mixed-prefactor path, term dropped -> incomplete), random subsets / types / max_order requests; the repository's factor-test expressions; the ADC(2) ph/ph reduce+factor pipeline of the example script (thorough).",
+    text="~310 generated expressions per quick run over 15 registered intermediates (900 thorough, 36 of them with third-order intermediates): (intermediate tensor x free tensor) combinations, fully/once expanded, perturbed expansions (prefactor changed -> mixed-prefactor path, term dropped -> incomplete), extra denominators over the intermediate's indices, the same intermediate twice in a term, pairs differing in the left-over denominator only, implicit-target expansions, random subsets / types / max_order requests; the repository's factor-test expressions; the ADC(2) ph/ph reduce+factor pipeline of the example script (thorough).",
     note="Trusted: TM evaluator; definitional arrays merged per (tensor name, rank). RE residual intermediates (tensor = placeholder 0) are exercised in C12, not here."),
  'C19': dict(
     technique="runtime monitor: differential execution - every request of a catalogue runs in fresh interpreter processes under several PYTHONHASHSEEDs, after random prior API-call histories and from a scratch copy of the package with another tensor_names.json; the recorded results (F_p value fingerprints under two primes, text after substitute_contracted, term counts) are compared offline; in-process hooks on GroundState.psi / norm_factor check that results never share contracted indices",
     category='exploration', design='4/C19',
-    text="16 requests (quick; 27 thorough) x 3 hash seeds x up to 4 random histories + alternative name configuration = ~140 process runs per quick run; ~18000 monitored psi / norm_factor calls. Text differences whose per-term value multisets agree are classified as the open finding F6.",
+    text="19 requests (quick; 30 thorough) x 3 hash seeds x up to 4 random histories + alternative (multi-character) name configuration = ~175 process runs per quick run; ~18000 monitored psi / norm_factor calls. Text differences whose per-term value multisets agree are classified as the open finding F6.",
     note="A defect that is the same in every run (deterministic wrong value) is invisible to this differential check; values are decided by C02-C05. Trusted: TM fingerprints."),
 }
 
